@@ -520,7 +520,7 @@ func runC18(c *Ctx) {
 				continue // the empty-request shortcut
 			}
 			g, path := Guarded(dec.Block(), r, pass, nil)
-			c.Check(g && len(pass) > 0, "R5", "Batch:unsupported-hash-rejected", p.InstrPos(r), "a response is returned for use only when its hash_algo is absent or sha256", "a batch response can be acted upon without its hash_algo having been tested (the test must be on the RESPONSE's field): "+path)
+			c.Check(g && nonVacuous(pass), "R5", "Batch:unsupported-hash-rejected", p.InstrPos(r), "a response is returned for use only when its hash_algo is absent or sha256", "a batch response can be acted upon without its hash_algo having been tested (the test must be on the RESPONSE's field): "+path)
 		}
 		// a wrong-struct test is a tell-tale
 		for _, b := range bf.Blocks {
@@ -583,7 +583,7 @@ func runC18(c *Ctx) {
 				entry = l.Body
 			}
 			g, path := Guarded(entry, ci, pass, nil)
-			c.Check(g && len(pass) > 0, "R6", "worker:negative-size-refused", p.InstrPos(ci), "a transfer with a negative size is refused before it starts", "a transfer with a negative size can reach the adapter: "+path)
+			c.Check(g && nonVacuous(pass), "R6", "worker:negative-size-refused", p.InstrPos(ci), "a transfer with a negative size is refused before it starts", "a transfer with a negative size can reach the adapter: "+path)
 		}
 	}
 }
